@@ -41,6 +41,16 @@ class _FieldOfDressed:
             self.__get__(container=container)[:] = value
         elif hasattr(value, "_xobject"):  # value is a dressed xobject
 
+            is_ref = isinstance(
+                getattr(container._XoStruct, self.name).ftype, Ref
+            )
+            if is_ref and value._buffer is not container._buffer:
+                # refuse before touching anything
+                raise MemoryError(
+                    "Cannot make a reference to an object in "
+                    "a different buffer."
+                )
+
             # Copy xobject data from value inside self._xobject
             # (unless same memory area or Ref and same buffer,
             #  in the latter case reference mechanism is used)
@@ -54,12 +64,7 @@ class _FieldOfDressed:
             ):
                 setattr(container._xobject, self.name, value._xobject)
 
-            if isinstance(getattr(container._XoStruct, self.name).ftype, Ref):
-                if value._buffer is not container._buffer:
-                    raise MemoryError(
-                        "Cannot make a reference to an object in "
-                        "a different buffer."
-                    )
+            if is_ref:
                 # Reference mechanism was used
                 setattr(container, "_dressed_" + self.name, value)
                 value._movable = False
